@@ -233,8 +233,15 @@ func (mw *msgWriter) writeGenHeader(msg *Msg) {
 // Parameters:
 //   - msg: The Msg object containing the preformatted headers to be written.
 func (mw *msgWriter) writePreformattedGenHeader(msg *Msg) {
-	for key, val := range msg.preformHeader {
-		line := fmt.Sprintf("%s: %s%s", key, val, SingleNewLine)
+	// Iterate in a stable order, so that every rendering of the message (i. e. the rendering
+	// that is S/MIME signed and the one that is sent) produces the same output
+	keys := make([]string, 0, len(msg.preformHeader))
+	for key := range msg.preformHeader {
+		keys = append(keys, string(key))
+	}
+	sort.Strings(keys)
+	for _, key := range keys {
+		line := fmt.Sprintf("%s: %s%s", key, msg.preformHeader[Header(key)], SingleNewLine)
 		mw.writeString(line)
 		msg.headerCount += strings.Count(line, SingleNewLine)
 	}
@@ -344,6 +351,11 @@ func (mw *msgWriter) addFiles(files []*File, isAttachment bool) {
 			}
 			file.setHeader(HeaderContentTransferEnc, string(encoding))
 		}
+		// The header is cached in the File. On any further rendering the body has to be encoded
+		// with the encoding the header announces, not with the default.
+		if cachedEncoding, ok := file.getHeader(HeaderContentTransferEnc); ok {
+			encoding = Encoding(cachedEncoding)
+		}
 
 		if file.Desc != "" {
 			if _, ok := file.getHeader(HeaderContentDescription); !ok {
@@ -371,8 +383,14 @@ func (mw *msgWriter) addFiles(files []*File, isAttachment bool) {
 			file.setHeader(HeaderContentID, sanitizeHeaderValue(contentID))
 		}
 		if mw.depth == 0 {
-			for header, val := range file.Header {
-				mw.writeHeader(Header(header), val...)
+			// Write the headers in a stable (sorted) order, like multipart.Writer.CreatePart does
+			headers := make([]string, 0, len(file.Header))
+			for header := range file.Header {
+				headers = append(headers, header)
+			}
+			sort.Strings(headers)
+			for _, header := range headers {
+				mw.writeHeader(Header(header), file.Header[header]...)
 			}
 			mw.writeString(SingleNewLine)
 		}
